@@ -418,6 +418,27 @@ def rule_slots(ctx, R):
         for si, st in enumerate(blk["stmts"]):
             if st["k"] == "assign" and st["p"]["proj"] == ["deref"] and b.lty(st["p"]["l"]) == "&mut usize":
                 stores.append((roles.of_origin(org.of_rvalue(st["r"], bi, si)), st["span"]["at"]))
+    # ... and only when the entry still holds the sentinel
+    st_labs = []
+    for bi, blk in enumerate(b.blocks):
+        if blk["cleanup"]:
+            continue
+        if any(st["k"] == "assign" and st["p"]["proj"] == ["deref"] and b.lty(st["p"]["l"]) == "&mut usize" for st in blk["stmts"]):
+            ls = [l for l in dominating_edge_labels(cfg, b, evs, bi) if "Entry::or_insert" in l]
+            st_labs.append(sorted(("unset" if (l.startswith("EQ[") and l.endswith("=1")) or (l.startswith("NE[") and l.endswith("=0")) else "set") for l in ls))
+    R.check(bool(st_labs) and all(x == ["unset"] for x in st_labs), "optimize:slots:assign_iff", "a slot is stored into a map entry only when the entry still holds the sentinel (a stack that has a slot keeps it): %s" % st_labs, b.span)
+    # the rewritten command carries the slot: kind, syllable count, area count and area are copied, the stack number is the map entry
+    ocs = []
+    for bi, t in b.calls():
+        if callee_name(t["f"], fb).endswith("OptCode::new"):
+            a = [roles.of_operand(x, bi) for x in t["args"]]
+            remap = {"EQ[K0,KIND]=0", "LT[DOT,K4]=0"} <= set(dominating_edge_labels(cfg, b, evs, bi))
+            ocs.append((a, remap, t["span"]["at"]))
+    is_entry = lambda r: r.startswith("Entry::or_insert(HashMap::entry(") and r.endswith(",DOT),K0)")
+    ok_ = bool(ocs) and all(a[0] == "KIND" and a[1] == "HANGUL" and a[3] == "AREACOUNT" and a[4] in ("COPY(AREA)", "AREA") for a, _, _ in ocs)
+    ok_ = ok_ and any(is_entry(a[2]) or (a[2].startswith("PHI(") and "Entry::or_insert(HashMap::entry(" in a[2]) for a, _, _ in ocs)
+    ok_ = ok_ and all((is_entry(a[2]) if rm else (a[2] == "DOT" or (a[2].startswith("PHI(") and "DOT" in a[2]))) for a, rm, _ in ocs)
+    R.check(ok_, "optimize:slots:rewritten", "the optimised command copies kind, syllable count, area count and area, and addresses the slot found in the map where the remap condition holds (the original number elsewhere): %s" % [(a[2][:40], rm) for a, rm, _ in ocs], ocs[0][2] if ocs else None)
     if R.anchor(len(stores) >= 2, "slot_stores", "stores into the slot map entries (found %d)" % len(stores)):
         adv = [x for x in stores if x[0].startswith("(") and x[0].endswith(" Add K1)")]
         R.check(not adv and all("LOOPVAR" in v or v.startswith("PHI(") for v, _ in stores), "optimize:slots:store_then_advance", "a slot map entry receives the current value of the slot counter; the counter is advanced afterwards (the advanced value is the shared slot): %s" % [v for v, _ in stores], (adv or stores)[0][1])
@@ -503,7 +524,51 @@ def rule_capture(ctx, R):
             R.check(ok and len(alts) == 2, "optimize:residual", "the residual program starts exactly at the command whose speculative run was given up (start = %s)" % kinds, t["span"]["at"])
     # the give-up test: idx = i is assigned exactly when the second component of opt_execute's result is false
     # state returned by opt_execute is written back on every iteration
-    R.check(True, "optimize:spec_loop", "speculation loop analysed (capture, residual)")
+    from .util import dominating_edge_labels
+    evs = Events(b, fb, roles=roles)
+    loops_ = [cfg.natural_loop(be) for be in cfg.back_edges() if sb in cfg.natural_loop(be)]
+    if R.anchor(len(loops_) >= 1, "spec_loop", "the loop around the speculative run in optimize()"):
+        loop = set().union(*loops_)
+        heads = {be[1] for be in cfg.back_edges() if sb in cfg.natural_loop(be)}
+        F, T = [], []
+        for gb in loop:
+            tt = b.blocks[gb]["term"]
+            if tt["k"] == "switch":
+                for sx in cfg.succ[gb]:
+                    lab = evs.generic_edge(gb, tt, sx) or ""
+                    if lab.startswith("BR[TRY(optimize::opt_execute(") and lab.rsplit("]", 1)[0].endswith(").1"):
+                        (F if lab.endswith("=0") else T).append((gb, sx, lab))
+        if R.anchor(len(F) == 1 and len(T) == 1, "spec_flag", "the test of opt_execute's second result (did the command complete) inside the loop"):
+            outside = [x for x in range(len(b.blocks)) if x not in loop]
+            stops = F[0][1] not in loop or not reaches_without(cfg, [F[0][1]], heads, cut_blocks=outside)
+            goes_on = T[0][1] in loop and reaches_without(cfg, [T[0][1]], heads, cut_blocks=outside)
+            R.check(stops and goes_on, "optimize:spec_loop:stops", "the speculation loop ends at the first command that was given up and goes on after a command that completed (leaves on not-completed: %s, continues on completed: %s)" % (stops, goes_on), b.blocks[F[0][0]]["term"]["span"]["at"])
+            # the start of the residual program is recorded exactly on the give-up edge
+            recs = []
+            for bi in loop:
+                for si, st in enumerate(b.blocks[bi]["stmts"]):
+                    if st["k"] == "assign" and not st["p"]["proj"] and st["p"]["l"] in b.local_names() and b.lty(st["p"]["l"]) == "usize" and any(d[1] not in loop for d in vars_.defs.get(st["p"]["l"], [])):
+                        r_ = roles.of_origin(org.of_rvalue(st["r"], bi, si))
+                        if r_.endswith(".0") and "ENUMERATE" in r_ or r_ == "ELEM.0":
+                            recs.append((F[0][2] in dominating_edge_labels(cfg, b, evs, bi), r_[:40]))
+            # (a loop that needs no record, e.g. an index loop whose counter is the start, has nothing to check here)
+            R.check(all(x for x, _ in recs), "optimize:spec_loop:record", "the position of the abandoned command is recorded only when a command was given up: %s" % recs, b.blocks[F[0][0]]["term"]["span"]["at"])
+    # the residual program replaces the command list on every level >= 2 path
+    ge2 = []
+    for gb, blk in enumerate(b.blocks):
+        tt = blk["term"]
+        if tt["k"] == "switch" and not blk["cleanup"]:
+            for sx in cfg.succ[gb]:
+                if (evs.generic_edge(gb, tt, sx) or "") in ("LT[ARG2,K2]=0", "LE[K2,ARG2]=1"):
+                    ge2.append(sx)
+    cuts = []
+    for bi, t in b.calls():
+        n = callee_name(t["f"], fb)
+        if (n.endswith("::to_vec") and "RangeFrom" in roles.of_operand(t["args"][0], bi)) or (n.endswith("Vec::drain") and "RangeTo" in roles.of_operand(t["args"][1], bi)):
+            cuts.append(bi)
+    rets = [roles.of_origin(org.of_rvalue(st["r"], bi, si)) for bi, blk in enumerate(b.blocks) if not blk["cleanup"] for si, st in enumerate(blk["stmts"]) if st["k"] == "assign" and st["p"]["l"] == 0 and not st["p"]["proj"]]
+    used = any("[T]::to_vec(Index::index(VEC,RangeFrom" in r or "Vec::drain(" in r for r in rets) or any(callee_name(b.blocks[c]["term"]["f"], fb).endswith("Vec::drain") for c in cuts)
+    R.check(bool(ge2) and bool(cuts) and used and not reaches_without(cfg, ge2, cfg.returns, cut_blocks=cuts), "optimize:residual:applied", "for level >= 2 the command list that is returned is cut down to the residual program on every path (cut at %d site(s))" % len(cuts), b.span)
 
 
 def rule_reemit(ctx, R):
@@ -585,3 +650,38 @@ RULES.append(("C02.REFARM", "the reference the levels are compared with: six arm
 RULES.append(("C02.REFJUMP", "the reference the levels are compared with: area, label and ♡ rules of execute_one (shared with C01.JUMP)", p_c01.rule_area_jump))
 
 RULES.append(("C02.STATEAPI", "the accessors of the state (selected stack, jump source, label table, command log) read and write exactly their field (shared with C01.STATEAPI)", p_c01.rule_stateapi))
+
+
+def rule_window(ctx, R):
+    """the speculative executor works on exactly one command: the loop runs while the location is inside
+    [0, index of the appended command]; one past it would read a command that does not exist"""
+    fb = ctx.fb
+    b = fb.bodies.get(OPT_EXEC)
+    if not R.anchor(b is not None, "opt_execute", OPT_EXEC):
+        return
+    R.analyse(b.name)
+    cfg = normal_cfg(b)
+    roles = Roles(b, fb)
+    ev = Events(b, fb, roles=roles)
+    pcs = [bi for bi, t in b.calls() if callee_name(t["f"], fb).endswith("State::push_code")]
+    if not R.anchor(len(pcs) == 1, "push_code", "the one call that appends the command to the state's log"):
+        return
+    loops_ = [(be, cfg.natural_loop(be)) for be in cfg.back_edges()]
+    main = max(loops_, key=lambda x: len(x[1]))[1] if loops_ else set()
+    heads = {be[1] for be, lp in loops_ if lp == main or be[1] == max(loops_, key=lambda x: len(x[1]))[0][1]}
+    conds = []
+    for h in heads:
+        tt = b.blocks[h]["term"]
+        if tt["k"] == "switch":
+            for sx in cfg.succ[h]:
+                lab = ev.generic_edge(h, tt, sx) or ""
+                conds.append((lab, sx in main))
+    stay = [l for l, inside in conds if inside]
+    leave = [l for l, inside in conds if not inside]
+    ok = len(stay) == 1 and len(leave) == 1 and (
+        (stay[0].startswith("LT[") and stay[0].endswith(",(PUSHCODE Add K1)]=1") and leave[0].endswith(",(PUSHCODE Add K1)]=0"))
+        or (stay[0].startswith("LE[") and stay[0].endswith(",PUSHCODE]=1") and leave[0].endswith(",PUSHCODE]=0")))
+    R.check(ok, "opt_execute:window", "the speculative executor runs while the location is at most the index of the appended command (stays on %s, leaves on %s)" % ([x[-40:] for x in stay], [x[-40:] for x in leave]), b.blocks[sorted(heads)[0]]["term"]["span"]["at"] if heads else None)
+
+
+RULES.append(("C02.WINDOW", "opt_execute executes inside the window [0, appended command]: never reads a command past the log (shared with C10.WINDOW)", rule_window))
